@@ -633,13 +633,16 @@ Definition clean_op (o : op) : Prop := clean_req (o_req o).
 (* an output file is named after its owner and method, and the owner's registry line is the
    identity of the request that produced it *)
 Definition out_ok (R : registry) (f : file) : Prop :=
-  forall c, f_kind f = KOutput c ->
-    f_name f = f_owner f ++ out_ext (rq_method (c_producer c)) /\
-    In (f_owner f, idf (c_producer c) (f_owner f)) R.
+  match f_kind f with
+  | KOutput c => f_name f = f_owner f ++ out_ext (rq_method (c_producer c)) /\
+                 In (f_owner f, idf (c_producer c) (f_owner f)) R
+  | KTraj c => f_name f = trj_name (f_owner f) /\ In (f_owner f, idf (c_producer c) (f_owner f)) R
+  | _ => True
+  end.
 Definition Inv (st : state) : Prop := WF (st_reg st) /\ Forall (out_ok (st_reg st)) (st_fs st).
 
 Lemma out_ok_incl R R' f : incl R R' -> out_ok R f -> out_ok R' f.
-Proof. intros I H c Hc. destruct (H c Hc) as [H1 H2]. split; [exact H1|exact (I _ H2)]. Qed.
+Proof. intros I. unfold out_ok. destruct (f_kind f); try exact (fun x => x); intros [H1 H2]; split; [exact H1|exact (I _ H2)|exact H1|exact (I _ H2)]. Qed.
 Lemma Forall_fs_write (P : file -> Prop) g fs : P g -> Forall P fs -> Forall P (fs_write g fs).
 Proof.
   intros Hg H. apply Forall_forall. intros f Hf. apply in_fs_write in Hf.
@@ -694,11 +697,11 @@ Proof.
 Qed.
 Lemma ex_fs2_ok st o : Inv st -> clean_op o -> Forall (out_ok (ex_R st o)) (ex_fs2 st o).
 Proof.
-  intros I C. destruct (ex_step_wf st o I C) as [W1 [I1 B1]]. destruct I as [_ F].
+  intros HI C. destruct (ex_step_wf st o HI C) as [W1 [I1 B1]]. destruct HI as [_ F].
   unfold ex_fs2. apply Forall_stage_program.
-  - intros c Hc. discriminate.
-  - intros b c Hc. simpl in Hc. injection Hc as <-. simpl. split; [reflexivity|exact B1].
-  - unfold ex_fs1. apply Forall_stage_inputs; [intros nm c Hc; discriminate|].
+  - exact I.
+  - intros b. unfold out_ok. simpl. split; [reflexivity|exact B1].
+  - unfold ex_fs1. apply Forall_stage_inputs; [intros nm; exact I|].
     apply Forall_forall. intros f Hf. rewrite Forall_forall in F. exact (out_ok_incl _ _ _ I1 (F _ Hf)).
 Qed.
 Lemma exec_op_inv st o : Inv st -> clean_op o -> Inv (fst (exec_op st o)).
@@ -723,11 +726,66 @@ Proof.
   pose proof (exec_op_inv st o I C0) as I1. destruct (exec_op st o) as [s1 ob]. cbn [fst] in I1.
   specialize (IH s1 I1 Cs). destruct (run_ops s1 ops). exact IH.
 Qed.
-Definition reachable (st : state) : Prop := exists ops, Forall clean_op ops /\ fst (run_ops init_state ops) = st.
+(* ---- optimisations through CalculationExecutorO *)
+Lemma exec_opt_inv st r : Inv st -> clean_req r -> Inv (fst (exec_opt st r)).
+Proof.
+  intros [W F] C. unfold exec_opt.
+  destruct (reg_step (st_reg st) r) as [R1 N] eqn:E.
+  destruct (reg_step_wf _ _ _ _ W C E) as [W1 [I1 [B1 _]]]. cbn [fst snd].
+  assert (F1 : Forall (out_ok R1) (st_fs st)).
+  { apply Forall_forall. intros f Hf. rewrite Forall_forall in F. exact (out_ok_incl _ _ _ I1 (F _ Hf)). }
+  destruct (fs_find (st_fs st) (trj_name N)) as [[nm own k]|]; [destruct k|]; cbn [fst]; split; cbn [st_reg st_fs]; try assumption.
+  apply Forall_fs_write; [exact I|]. apply Forall_fs_write; [|exact F1].
+  unfold out_ok. simpl. split; [reflexivity|exact B1].
+Qed.
+Lemma opt_parsed_same_identity st r r' : Inv st -> clean_req r ->
+  ob_energy (snd (exec_opt st r)) = Some r' ->
+  idf r' (ob_name (snd (exec_opt st r))) = idf r (ob_name (snd (exec_opt st r))).
+Proof.
+  intros [W F] C. unfold exec_opt.
+  destruct (reg_step (st_reg st) r) as [R1 N] eqn:E.
+  destruct (reg_step_wf _ _ _ _ W C E) as [W1 [I1 [B1 _]]]. cbn [fst snd].
+  destruct (fs_find (st_fs st) (trj_name N)) as [[nm own k]|] eqn:Ef; [destruct k|]; cbn [snd ob_energy ob_name]; try discriminate.
+  - intros H. injection H as <-. apply fs_find_some in Ef. destruct Ef as [Hin Hnm]. simpl in Hnm.
+    rewrite Forall_forall in F. pose proof (F _ Hin) as Hok. unfold out_ok in Hok. simpl in Hok.
+    destruct Hok as [Hname Hbind]. rewrite Hnm in Hname. unfold trj_name in Hname. apply app_inv_tail in Hname. subst own.
+    exact (WF_unique _ _ _ _ W1 (I1 _ Hbind) B1).
+  - intros H. injection H as <-. reflexivity.
+Qed.
+(* an optimisation is skipped only when a trajectory saved under ITS OWN name exists *)
+Lemma opt_skip_means_trajectory st r : ob_invoked (snd (exec_opt st r)) = false ->
+  fs_exists (st_fs st) (trj_name (snd (reg_step (st_reg st) r))) = true.
+Proof.
+  unfold exec_opt, fs_exists.
+  destruct (fs_find (st_fs st) (trj_name (snd (reg_step (st_reg st) r)))) as [[nm own k]|]; [reflexivity|].
+  cbn [snd ob_invoked]. discriminate.
+Qed.
+
+Definition clean_gop (g : gop) : Prop := match g with GExt o => clean_op o | GOpt r => clean_req r end.
+Lemma exec_gop_inv st g : Inv st -> clean_gop g -> Inv (fst (exec_gop st g)).
+Proof. destruct g; simpl; [apply exec_op_inv|apply exec_opt_inv]. Qed.
+Lemma run_gops_app st h1 h2 :
+  run_gops st (h1 ++ h2) =
+  let '(st1, o1) := run_gops st h1 in let '(st2, o2) := run_gops st1 h2 in (st2, o1 ++ o2).
+Proof.
+  revert st. induction h1 as [|g h1 IH]; intros st; cbn [app run_gops].
+  - destruct (run_gops st h2). reflexivity.
+  - destruct (exec_gop st g) as [sa ob]. rewrite IH. destruct (run_gops sa h1) as [s1 o1].
+    destruct (run_gops s1 h2). reflexivity.
+Qed.
+Lemma run_gops_inv gs : forall st, Inv st -> Forall clean_gop gs -> Inv (fst (run_gops st gs)).
+Proof.
+  induction gs as [|g gs IH]; intros st HI C; cbn [run_gops]; [exact HI|].
+  inversion C as [|? ? C0 Cs]; subst.
+  pose proof (exec_gop_inv st g HI C0) as I1. destruct (exec_gop st g) as [s1 ob]. cbn [fst] in I1.
+  specialize (IH s1 I1 Cs). destruct (run_gops s1 gs). exact IH.
+Qed.
+(* states reachable by any mixed history of clean external calculations and optimisations *)
+Definition reachable (st : state) : Prop := exists gs, Forall clean_gop gs /\ fst (run_gops init_state gs) = st.
 Lemma Inv_init : Inv init_state.
 Proof. split; [exact WF_nil|constructor]. Qed.
 Lemma reachable_inv st : reachable st -> Inv st.
-Proof. intros [ops [C <-]]. apply run_ops_inv; [exact Inv_init|exact C]. Qed.
+Proof. intros [gs [C <-]]. apply run_gops_inv; [exact Inv_init|exact C]. Qed.
 
 (* ================================================================== reuse *)
 Lemma reuse_rule_sound e n : reuse_rule e n = true -> e = true /\ n = true.
@@ -742,10 +800,10 @@ Lemma parsed_same_identity st o r' : Inv st -> clean_op o ->
 Proof.
   intros I C. rewrite exec_op_unfold. simpl. unfold stage_result.
   destruct (fs_find (ex_fs2 st o) (ex_outF st o)) as [[nm own k]|] eqn:E; [|discriminate].
-  destruct k as [|c|]; simpl; try discriminate. intros H. injection H as <-.
+  destruct k as [|c| |c]; simpl; try discriminate. intros H. injection H as <-.
   apply fs_find_some in E. destruct E as [Hin Hnm]. simpl in Hnm.
   pose proof (ex_fs2_ok st o I C) as F. rewrite Forall_forall in F.
-  destruct (F _ Hin c eq_refl) as [Hname Hbind]. simpl in Hname, Hbind.
+  pose proof (F _ Hin) as Hok. unfold out_ok in Hok. simpl in Hok. destruct Hok as [Hname Hbind].
   destruct (ex_step_wf st o I C) as [W1 [_ B1]].
   assert (Eo : own = ex_N st o).
   { rewrite Hnm in Hname. unfold ex_outF in Hname.
